@@ -28,6 +28,8 @@ type ArgSpec struct {
 }
 
 type KernelCase struct {
+	AllOrders bool // fork over map iteration orders
+	SchemaMarshalsTrue bool // json.Marshal of a *Schema value returns the bytes "true" (empty schemas only)
 	Name   string
 	Func   string // name of the overlay function
 	Native any    // the native function (for replay)
@@ -46,6 +48,16 @@ func (w *Worker) RunKernel(kc *KernelCase, property string) *SkelResult {
 	res := &SkelResult{Skeleton: kc.Name}
 	defer func() { res.Elapsed = time.Since(t0) }()
 	m := w.NewMachine()
+	m.AllOrders = kc.AllOrders
+	if kc.SchemaMarshalsTrue {
+		m.JSONMarshalHook = func(m *sx.Machine, args []sx.Value) (sx.Value, bool) {
+			x := args[0].(sx.Iface)
+			if x.T != nil && x.T.String() == "*"+m.P.Path+".Schema" {
+				return sx.Tuple{[]sx.Value{uint64('t'), uint64('r'), uint64('u'), uint64('e')}, sx.Iface{}}, true
+			}
+			return nil, false
+		}
+	}
 	res.Stats = m.Stats
 	c := m.Ctx
 	var args []*kernelArg
@@ -330,5 +342,24 @@ func init() {
 		r.Outside = append(r.Outside, "percent-decoding itself is net/url's (native, concrete strings); pointers with more than two symbolic segments")
 		r.Bounds = append(r.Bounds, fmt.Sprintf("K2: dereferenceJSONPointer on a maximal schema of either draft shape (every subschema-bearing keyword populated, map keys incl. \"\", /, ~, ~0, ~1, %%, space, non-ASCII, digits, -, 01, +1): first segment = every JSON field name and some non-keywords (enumerated), second segment = all strings of length <= %d over {a,0,1,9,~,-,+,%%,n,o,t,space}; result must be the subschema RFC 6901 designates, else an error", maxS))
 		r.Bounds = append(r.Bounds, fmt.Sprintf("K1: escape/unescape/parse on all byte strings (bytes 0..127) of length <= %d and all pointers over the alphabet {a,0,1,~,/,-,+} of length <= %d, executed from the real SSA incl. the strings.Replacer contract model built from the package initialiser's arguments", maxK, maxP))
+	}
+}
+
+func boolArg() ArgSpec { return ArgSpec{Kind: "bool"} }
+
+func init() {
+	Checks["C19"] = func(cc *CheckCtx, r *Report) {
+		maxO := 3
+		if cc.Thorough() {
+			maxO = 5
+		}
+		var cases []*KernelCase
+		for n := 0; n <= maxO; n++ {
+			cases = append(cases, &KernelCase{Name: fmt.Sprintf("order.len%d", n), Func: "VerifKernelPropertyOrder", Native: jsonschema.VerifKernelPropertyOrder, AllOrders: true, SchemaMarshalsTrue: true,
+				Args: []ArgSpec{boolArg(), boolArg(), boolArg(), boolArg(), strArg(n, "abcdz")}})
+		}
+		cc.RunKernels(r, cases)
+		r.Bounds = append(r.Bounds, fmt.Sprintf("real SSA of orderedProperties.MarshalJSON and basicChecks: properties = every subset of {a,b,c,d} (symbolic presence), PropertyOrder = every sequence of length <= %d over {a,b,c,d,z} (z names no property; duplicates allowed), every map iteration order; json.Marshal of the (empty) property schemas is stubbed to the bytes `true`", maxO))
+		r.Outside = append(r.Outside, "determinism of the rest of Marshal (encoding/json sorts map keys; its body is not encoded); nested schemas with their own PropertyOrder beyond one level")
 	}
 }
